@@ -251,7 +251,7 @@ def run_script(script, py="/venv/bin/python"):
     os.close(fd)
     try:
         env = dict(os.environ)
-        env.pop("PYTHONPATH", None)
+        env["PYTHONPATH"] = env.get("VT_REPO", "/repo") + "/src"
         p = subprocess.run([py, path], capture_output=True, text=True, timeout=300, env=env, cwd="/")
         return p.returncode, (p.stdout + p.stderr)[-3000:]
     finally:
